@@ -7,7 +7,7 @@ the search of the tracked position, clean exit, and the position-tracking assign
 (timing), that the search always reports at least one line before it is stopped, legality of the searched/book move itself
 (C03, C16, C05)."""
 from facts import callee_name
-from terms import TermBuilder, show, walk
+from terms import TermBuilder, show, walk, const_value
 import cfg
 from dataflow import Deps, operand_locals, rvalue_locals, place_locals
 from callgraph import CallGraph, load_effects, classify
@@ -1115,6 +1115,28 @@ def _assign_kind(ex, tb, bb, cp):
 
 
 # ---------------------------------------------------------------- I10
+def past_first_iteration(c, tk):
+    """Does (condition, truth) say that the value yielded by the depth range is not 0 (`depth > 0`, `depth != 0`, `depth >= 1`, `0 < depth`)?"""
+    if c[0] != "bin" or c[1] not in ("Gt", "Ge", "Lt", "Le", "Eq", "Ne") or not isinstance(tk, bool):
+        return False
+    a, b_ = c[2], c[3]
+
+    def is_depth(x):
+        return any(y[0] == "call" and is_iter_next(y[1]) and "Range" in y[1] for y in walk(x)) and x[0] in ("field", "variant")
+    for dv, other, left in ((a, b_, True), (b_, a, False)):
+        if not is_depth(dv) or other[0] != "const":
+            continue
+        k = const_value(other)
+        if not isinstance(k, int) or isinstance(k, bool):
+            continue
+        f = lambda d: {"Gt": d > k, "Ge": d >= k, "Lt": d < k, "Le": d <= k, "Eq": d == k, "Ne": d != k}[c[1]] if left else \
+            {"Gt": k > d, "Ge": k >= d, "Lt": k < d, "Le": k <= d, "Eq": k == d, "Ne": k != d}[c[1]]
+        # the condition with this truth value must exclude depth 0 and admit every depth >= 1
+        if f(0) != tk and all(f(d) == tk for d in (1, 2, 3, 50)):
+            return True
+    return False
+
+
 def i10_first_iteration(ck):
     prog = ck.prog
     b = ck.body(ITER, "I10")
@@ -1153,6 +1175,10 @@ def i10_first_iteration(ck):
                 ck.ok("I10.exit", "range exhausted", b.where(t.get("line")))
                 continue
             g = guards_of(prog, b, a, tb)
+            # a stop that is looked at between iterations, never before the first one
+            if any(past_first_iteration(c_, v_) for c_, v_ in g):
+                ck.ok("I10.exit", "between iterations", b.where(t.get("line")), "only after the first iteration")
+                continue
             ck.fail("I10.exit", "before workers", b.where(t.get("line")),
                     "the deepening loop can be left before the iteration's search has run (conditions: %s): a search whose stop is already pending "
                     "reports no line, so the `go` gets no bestmove" % [show(c)[:50] for c, v in g][-2:])
